@@ -32,6 +32,9 @@ CHECKS = {
  "C13": dict(level="model_checking", sec="3/C13", technique="exhaustive enumeration of small IL functions x initial states x intrinsic-effect variants; explicit-state product of each concrete execution with an assigned-scalar monitor",
    text="Every function on <=2 blocks with <=3 instructions (3 blocks: <=1, thorough 2) from a 9-operation value-bearing alphabet; in every reachable product state each constant reported for an assigned scalar and each Constants::eval result is compared with the concrete value; constants() must complete on every function passing a definite-assignment check. Larger programs/other values are not covered.",
    note="Trusted: refil reference semantics; havoc model for intrinsics (identity, or written scalars := 2)."),
+ "C10": dict(level="model_checking", sec="3/C10", technique="exhaustive enumeration of small IL functions x initial states; definitional SSA validity checks plus lock-step explicit-state product of the original and its SSA form (parallel phi semantics)",
+   text="Same program space as C12 (loops through the entry, self-loops, unreachable blocks included); static: structure kept, single assignment, phi operands per predecessor, uses dominated by definitions (dominance by deletion); dynamic: lock-step product from every initial valuation with version-keyed scalars: same path, same values, no read of an unwritten version. Larger programs are not covered.",
+   note="Trusted: refil reference semantics incl. phi execution; declared intrinsic writes are havocked identically on both sides."),
 }
 NA = []
 def main():
